@@ -780,15 +780,7 @@ func (r *RegisteredDecoys) getExpiredRegistrations() []string {
 	var expiredRegTimeoutIndices = []string{}
 
 	for idx, regTimeout := range r.decoysTimeouts {
-		if regTimeout.status == regStatusUnused && time.Since(regTimeout.registrationTime) > r.timeoutUnused {
-			// if a registration has not senewTimeouten a valid connection in within the
-			// timeout we remove it from tracking as we do not expect to see a
-			// valid connection and no longer need it. Clients should retry with
-			// a new registration if connection has failed for this duration.
-			expiredRegTimeoutIndices = append(expiredRegTimeoutIndices, idx)
-		} else if time.Since(regTimeout.registrationTime) > r.timeoutActive {
-			// if a registration was received before the cutoff time add it
-			// to the list of registrations to be removed.
+		if r.isExpired(regTimeout) {
 			expiredRegTimeoutIndices = append(expiredRegTimeoutIndices, idx)
 		}
 	}
@@ -796,11 +788,30 @@ func (r *RegisteredDecoys) getExpiredRegistrations() []string {
 	return expiredRegTimeoutIndices
 }
 
+// isExpired reports whether a registration has outlived its lifetime. The caller holds r.m.
+func (r *RegisteredDecoys) isExpired(regTimeout *DecoyTimeout) bool {
+	if regTimeout.status == regStatusUnused && time.Since(regTimeout.registrationTime) > r.timeoutUnused {
+		// if a registration has not seen a valid connection in within the
+		// timeout we remove it from tracking as we do not expect to see a
+		// valid connection and no longer need it. Clients should retry with
+		// a new registration if connection has failed for this duration.
+		return true
+	}
+	// if a registration was received before the cutoff time it is to be removed.
+	return time.Since(regTimeout.registrationTime) > r.timeoutActive
+}
+
 func (r *RegisteredDecoys) removeRegistration(index string) *regExpireLogMsg {
 	r.m.Lock()
 	defer r.m.Unlock()
 
-	expiredReg := r.decoysTimeouts[index]
+	// The index was collected under the read lock; since then the registration may have been
+	// removed already or marked as used by a connection (which extends its lifetime), so look
+	// again and decide on the current state.
+	expiredReg, ok := r.decoysTimeouts[index]
+	if !ok || !r.isExpired(expiredReg) {
+		return nil
+	}
 	expiredRegObj, ok := r.decoys[expiredReg.decoy][expiredReg.identifier]
 	if !ok {
 		return nil
